@@ -19,7 +19,7 @@ namespace glm
 	template<typename T, qualifier Q>
 	GLM_FUNC_QUALIFIER vec<3, T, Q> axis(qua<T, Q> const& x)
 	{
-		T const tmp1 = static_cast<T>(1) - x.w * x.w;
+		T const tmp1 = x.x * x.x + x.y * x.y + x.z * x.z;
 		if(tmp1 <= static_cast<T>(0))
 			return vec<3, T, Q>(0, 0, 1);
 		T const tmp2 = static_cast<T>(1) / sqrt(tmp1);
